@@ -45,7 +45,7 @@ def pin_numbers(ctx, v):
         if isinstance(x, SymReal):
             val = m.eval(x.r, model_completion=True)
             fr = Fraction(val.numerator_as_long(), val.denominator_as_long())
-            ctx.assume(x.r == val); return float(fr)
+            ctx.assume(x.r == val); f_ = float(fr); return -0.0 if (f_ == 0.0 and x.neg) else f_
         if is_sym(x) and z3.is_bv(x) and x.size() == 64:
             val = m.eval(x, model_completion=True); ctx.assume(x == val); return val.as_long()
         if isinstance(x, (Agg, Enum)):
